@@ -120,7 +120,11 @@ def check_cacg(run, A):
         else:
             ok_all = False
             continue
-        has_floor = any(p.op == 'param' and p.args[0] == 'eigenvalue_floor' for p in walk_terms(fl))
+        def _has(z):
+            return any(p.op == 'param' and p.args[0] == 'eigenvalue_floor' for p in walk_terms(z))
+        if is_call_to(a, 'numpy.maximum') and _has(x) and not _has(fl):
+            x, fl = fl, x           # maximum is commutative
+        has_floor = _has(fl)
         n_floor += has_floor
         ok_all = ok_all and has_floor
         xs = strip_views(x)
